@@ -236,11 +236,21 @@ type c16Client struct {
 	once   sync.Once
 }
 
-func c16NewClient() (*c16Client, error) { return c16NewClientKind(false) }
+var c16ClientCount int64
+
+// Clients differ in how they open their data channel (a proxy serves whatever WebRTC client the broker sends it):
+// default options, unordered, partially reliable (retransmit limit / lifetime limit), a sub-protocol name.
+func c16NewClient() (*c16Client, error) {
+	return c16NewClientInit(false, int(atomic.AddInt64(&c16ClientCount, 1)%5))
+}
+
+func c16NewClientKind(negotiatedOnly bool) (*c16Client, error) {
+	return c16NewClientInit(negotiatedOnly, 0)
+}
 
 // negotiated = true: the client's only data channel is pre-negotiated, so ICE and DTLS complete but no
 // DATA_CHANNEL_OPEN is ever sent: the proxy's peer connection is connected and OnDataChannel never fires.
-func c16NewClientKind(negotiatedOnly bool) (*c16Client, error) {
+func c16NewClientInit(negotiatedOnly bool, variant int) (*c16Client, error) {
 	s := webrtc.SettingEngine{}
 	s.SetICEMulticastDNSMode(ice.MulticastDNSModeDisabled)
 	pc, err := webrtc.NewAPI(webrtc.WithSettingEngine(s)).NewPeerConnection(webrtc.Configuration{})
@@ -252,6 +262,18 @@ func c16NewClientKind(negotiatedOnly bool) (*c16Client, error) {
 	if negotiatedOnly {
 		yes, id := true, uint16(0)
 		init = &webrtc.DataChannelInit{Negotiated: &yes, ID: &id}
+	} else {
+		no, zero, life, proto := false, uint16(0), uint16(100), "c16-proto"
+		switch variant {
+		case 1:
+			init = &webrtc.DataChannelInit{Ordered: &no}
+		case 2:
+			init = &webrtc.DataChannelInit{MaxRetransmits: &zero}
+		case 3:
+			init = &webrtc.DataChannelInit{Ordered: &no, MaxPacketLifeTime: &life}
+		case 4:
+			init = &webrtc.DataChannelInit{Protocol: &proto}
+		}
 	}
 	c.dc, err = pc.CreateDataChannel("c16", init)
 	if err != nil {
